@@ -44,6 +44,11 @@ def jobs(tier, seed):
         for (s, g) in sel:
             out.append({'name': 'astar-3x3-c%d-%d%d-%d%d' % (conn, s[0], s[1], g[0], g[1]), 'kind': 'astar', 'shape': [3, 3], 'start': list(s), 'goal': list(g),
                         'conn': conn, 'snap': [False, False], 'barrier': False})
+    # integer surfaces (the accumulated cost must stay floating point): crossability = "not a listed barrier value"
+    for (s_, g_) in (((0, 0), (2, 2)), ((2, 0), (0, 2)), ((1, 0), (1, 2))):
+        for dt in ('int32', 'uint8'):
+            out.append({'name': 'astar-3x3-c8-%s-%d%d-%d%d' % (dt, s_[0], s_[1], g_[0], g_[1]), 'kind': 'astar', 'shape': [3, 3], 'start': list(s_), 'goal': list(g_),
+                        'conn': 8, 'snap': [False, False], 'barrier': True, 'dtype': dt})
     # barriers + snapping on a smaller grid
     p23 = pairs(2, 3)
     selb = pick(p23, 6 if tier == 'quick' else len(p23), seed + 2, always=[5])
@@ -104,13 +109,14 @@ def body(ctx, job):
     s = tuple(job['start'])
     g = tuple(job['goal'])
     conn = job['conn']
-    data = ctx.array('d', (h, w), 'float64', nan=True)
+    dt = job.get('dtype', 'float64')
+    data = ctx.array('d', (h, w), dt, nan=True, **({'lo': 0, 'hi': 1} if dt[0] in 'iu' else {}))
     ys = coords_affine(h, float(h - 1) * 2.0, -2.0)      # descending y, step 2
     xs = coords_affine(w, 10.0, 0.5)                     # ascending x, step 0.5
     surf = raster(data, ys=ys, xs=xs, attrs={'res': (0.5, 2.0)}, name='surface')
     barriers = []
     if job['barrier']:
-        barriers = [ctx.real('barrier')]
+        barriers = [ctx.real('barrier')] if dt[0] not in 'iu' else [0]
     start = (float(ys[s[0]]), float(xs[s[1]]))
     goal = (float(ys[g[0]]), float(xs[g[1]]))
     res = ctx.call('pathfinding:a_star_search', surf, start, goal, barriers, 'x', 'y', conn, job['snap'][0], job['snap'][1])
